@@ -166,6 +166,20 @@ class C08:
             m = copy.deepcopy(doc)
             self.at(m, path)["zzz-unknown"] = rng.choice([1, "x", {}, []])
             yield "unknown@" + "/".join(map(str, path)), m
+            # near misses of the table's own keys: the Rust spelling of a hyphenated key (present or optional and
+            # absent) and other re-spellings are keys the format does not define
+            near = set()
+            for k in list(tbl.keys()) + ["clear-env", "sbom-formats", "working-dir", "arch-variant"]:
+                if "-" in k:
+                    near.add(k.replace("-", "_"))
+                    near.add(k.replace("-", ""))
+                else:
+                    near.add(k.upper())
+            for nk in sorted(near):
+                if nk not in tbl:
+                    m = copy.deepcopy(doc)
+                    self.at(m, path)[nk] = rng.choice([True, "x", [], ["application/spdx+json"]])
+                    yield "unknown@" + "/".join(map(str, path)), m
             for k in list(tbl.keys()):
                 m = copy.deepcopy(doc)
                 del self.at(m, path)[k]
